@@ -234,11 +234,15 @@ type Sink struct {
 	Keep     bool
 	Calls    int
 	Failed   bool
+	// Transient: only the write that crosses Limit is refused, every later write is accepted again
+	// (a destination that fails once, e.g. a quota hit that is lifted, EINTR-like errors)
+	Transient bool
+	recovered bool
 }
 
 func (s *Sink) Write(p []byte) (int, error) {
 	s.Calls++
-	if s.Limit < 0 {
+	if s.Limit < 0 || s.recovered {
 		s.Accepted += int64(len(p))
 		if s.Keep {
 			s.Buf = append(s.Buf, p...)
@@ -261,6 +265,9 @@ func (s *Sink) Write(p []byte) (int, error) {
 		s.Buf = append(s.Buf, p[:room]...)
 	}
 	s.Failed = true
+	if s.Transient {
+		s.recovered = true
+	}
 	if s.Short {
 		return int(room), io.ErrShortWrite
 	}
